@@ -225,3 +225,56 @@ def wire(ctx):
     from . import c13
     c13.restricted(ctx, r'(core::TracingSecretKey|core::TracingPublicKey|core::UserId|core::UserSecretKey|core::MasterSecretKey)$',
                    [c13.agree, c13.fields, c13.order])
+
+
+REORDERING = (r'^std::iter::Iterator::(rev|skip|step_by|skip_while|take_while|filter|filter_map|cycle|chain|flat_map|peekable|scan|nth|last)$',
+              r'::sort(_unstable)?(_by|_by_key)?$', r'::reverse$')
+
+
+@rule('C17', 'pairing', configs=('default', 'p256'))
+def pairing(ctx):
+    """The tracing relation pairs marker i with tracer i. Structurally: generate_user_id sums over
+    zip(tracers.iter(), markers.iter()) with no reordering adaptor on either side, draws one marker per tracer but the
+    last (take(len - 1)), solves the last marker against tracers.back() and appends it with push_back; decapsulation pairs
+    id.iter() with c.iter() in the same order; every set_traps maps the tracing points in their own order."""
+    F = ctx.F
+    gu = F.fn('core::TracingSecretKey::generate_user_id')
+    zs = gu.calls(r'^std::iter::Iterator::zip$')
+    ctx.check(len(zs) == 1, gu.key, 'one zip(tracers, markers)', 'generate_user_id pairs tracers and markers through %d zips' % len(zs), '', gu.where())
+    for z in zs:
+        for side, a in (('tracers', z.args[0]), ('markers', z.args[1])):
+            sl = backward_slice(gu, [a], follow_mutarg=False)
+            bad = sl.has_call(*REORDERING)
+            its = [c for c in sl.calls if c.is_(r'LinkedList::<[^>]*>::iter$')]
+            ctx.check(not bad and bool(its), gu.key, 'zip side %s in list order' % side,
+                      'the %s side of the marker/tracer pairing goes through %s (line %d): marker i is no longer combined with tracer i, '
+                      'issued identifiers do not satisfy the tracing relation' % (side, bad[0].name if bad else '?', bad[0].ln if bad else 0),
+                      'plain LinkedList::iter()', z.where())
+        r0 = [r for r in root_descr(gu, z.args[0]) if r[0] == 'param']
+    bk = gu.calls(r'LinkedList::<[^>]*>::back$')
+    pb = gu.calls(r'LinkedList::<[^>]*>::push_back$')
+    pf = gu.calls(r'LinkedList::<[^>]*>::push_front$')
+    ctx.check(len(bk) == 1 and len(pb) == 1 and not pf, gu.key, 'last marker <-> last tracer',
+              'the solved marker is not the one of the last tracer (back() / push_back)', 'tracers.back(), markers.push_back', gu.where())
+    tk = gu.calls(r'^std::iter::Iterator::take$')
+    okt = len(tk) == 1
+    if okt:
+        sl = backward_slice(gu, [tk[0].args[1]], follow_mutarg=False)
+        okt = bool(sl.has_call(r'LinkedList::<[^>]*>::len$')) and any(d.kind == 'assign' and d.rv['k'] == 'bin' and d.rv['op'] in ('SubWithOverflow', 'Sub')
+                                                                      and d.rv['b'].get('c', {}).get('v') == 1 for d in sl.rvs)
+    ctx.check(okt, gu.key, 'free markers = take(len - 1)', 'the number of freely drawn markers is not tracers.len() - 1', 'take(tracers.len() - 1)', gu.where())
+    # decapsulation side
+    db = F.fn('core::primitives::decaps')
+    zs = db.calls(r'^std::iter::Iterator::zip$')
+    ctx.check(len(zs) == 1, db.key, 'A = sum(marker_i * trap_i)', 'decaps pairs markers and traps through %d zips' % len(zs), '', db.where())
+    for z in zs:
+        for a in z.args[:2]:
+            sl = backward_slice(db, [a], follow_mutarg=False)
+            bad = sl.has_call(*REORDERING)
+            ctx.check(not bad, db.key, 'zip(id, c) in order', 'decaps pairs markers and traps through %s' % (bad[0].name if bad else ''),
+                      'plain iteration', z.where())
+    for key in ('core::TracingSecretKey::set_traps', 'core::UserSecretKey::set_traps', 'core::MasterPublicKey::set_traps',
+                'core::TracingSecretKey::tpk'):
+        fb = F.fn(key)
+        bad = fb.calls(*REORDERING)
+        ctx.check(not bad, key, 'points in list order', '%s reorders the tracing points (%s)' % (key, bad[0].name if bad else ''), 'iter().map(..)', fb.where())
